@@ -42,13 +42,16 @@
 (* Decoder = "perread" (every read decoded on its own, a cut character     *)
 (* becomes replacement characters) and Cache = "stale" (cached header not  *)
 (* refreshed on restart) are negative controls: FramingPerRead.cfg and     *)
-(* FramingStale.cfg must FAIL.                                             *)
+(* FramingStale.cfg must FAIL.  So must FramingLimit.cfg (Limit = 64: an   *)
+(* incomplete remainder heavier than 64 KiB is discarded).                 *)
 (***************************************************************************)
 EXTENDS Naturals, Sequences, FiniteSets, TLC
 
 CONSTANTS Shapes,     \* function: shape id -> cell sequence (design model)
           Decoder,    \* "stateful" | "perread"
-          Cache       \* "refresh" | "stale"
+          Cache,      \* "refresh" | "stale"
+          Limit       \* 0 = the unparsed remainder may grow without bound (intended: the code has no
+                      \* maximum stanza size); > 0: remainder dropped when heavier than Limit KiB
 
 VARIABLES sid,        \* which stream is being received (design model: a shape of Shapes)
           pos,        \* atoms read from the transport so far
@@ -65,8 +68,12 @@ vars  == <<mvars, hist>>
 (* ----------------------------------------------------------------------- *)
 (* cells -> description                                                     *)
 (* ----------------------------------------------------------------------- *)
-Cell(t, e, p) == [t |-> t, e |-> e, p |-> p, sync |-> FALSE]
-SyncCell(t, e, p) == [t |-> t, e |-> e, p |-> p, sync |-> TRUE]
+\* w = SIZE CLASS of the cell: its weight in KiB (0 = less than 1 KiB).  How much unparsed data
+\* the receiver has to carry from read to read is a dimension of the model: a stanza may be far
+\* larger than anything a single read delivers.
+Cell(t, e, p) == [t |-> t, e |-> e, p |-> p, sync |-> FALSE, w |-> 0]
+SyncCell(t, e, p) == [t |-> t, e |-> e, p |-> p, sync |-> TRUE, w |-> 0]
+BigCell(t, e, p, w) == [t |-> t, e |-> e, p |-> p, sync |-> FALSE, w |-> w]
 
 ElemKind(t) == CASE t = "hdr" -> "hdr" [] t = "st" -> "stanza" [] t = "ws" -> "ws" [] t = "cl" -> "close"
 
@@ -85,6 +92,7 @@ FromCells(cs) ==
         sy    == SelectSeq(Idx(Len(cs)), LAMBDA i : cs[i].sync)
         EndOf(i) == CHOOSE j \in i + 1..Len(cs) : cs[j].p = "mb2" /\ \A m \in i + 1..j - 1 : cs[m].p = "mbm"
         mbs(i)   == CHOOSE j \in 1..i : cs[j].p = "mb1" /\ \A m \in j + 1..i : cs[m].p = "mbm"
+        cum[i \in 0..Len(cs)] == IF i = 0 THEN 0 ELSE cum[i - 1] + cs[i].w
     IN [n     |-> Len(cs),
         elems |-> [j \in 1..Len(fin) |-> [k |-> ElemKind(cs[fin[j]].t), e |-> cs[fin[j]].e, to |-> fin[j]]],
         chars |-> [c \in 1..Len(start) |-> [from |-> start[c], to |-> EndOf(start[c])]],
@@ -93,12 +101,18 @@ FromCells(cs) ==
         \* bnd[p]  = j if element j ends with atom p, else 0
         \* held[p] = atoms of an incomplete character that end at position p, else 0
         bnd   |-> [p \in 1..Len(cs) |-> IF FinalCell(cs, p) THEN Cardinality({i \in 1..p : FinalCell(cs, i)}) ELSE 0],
-        held  |-> [p \in 1..Len(cs) |-> IF cs[p].p \in {"mb1", "mbm"} THEN p - mbs(p) + 1 ELSE 0]]
+        held  |-> [p \in 1..Len(cs) |-> IF cs[p].p \in {"mb1", "mbm"} THEN p - mbs(p) + 1 ELSE 0],
+        \* cw[p] = weight (KiB) of the atoms 1..p
+        cw    |-> [p \in 1..Len(cs) |-> cum[p]]]
 
 SyncPositions(s) == {s.sync[i] : i \in DOMAIN s.sync}
 
 (* ----------------------------------------------------------------------- *)
-(* the six shapes of the design model (<= 14 cells each)                   *)
+(* the nine shapes of the design model (<= 14 cells each); m7..m9 contain  *)
+(* one LARGE stanza each (70 KiB of text, 300 KiB in an attribute value    *)
+(* with a multi-byte character, 1.1 MiB of child elements) whose pieces    *)
+(* end after 4, 63, 64, 65 KiB ..., so that the reads of a composition     *)
+(* leave every size class of incomplete remainder in the buffer            *)
 (* ----------------------------------------------------------------------- *)
 ModelShapes ==
     "m1" :> <<Cell("hdr", 1, "decl"), Cell("hdr", 1, "sp"), Cell("hdr", 1, "tag"), Cell("hdr", 1, "attr"),
@@ -124,6 +138,18 @@ ModelShapes ==
  @@ "m6" :> <<Cell("hdr", 1, "decl"), Cell("hdr", 1, "sp"), Cell("hdr", 1, "tag"), Cell("hdr", 1, "attr"), Cell("hdr", 1, "tag"),
               Cell("st", 1, "tag"), Cell("st", 1, "cdata"), Cell("st", 1, "cdata"), Cell("st", 1, "tag"),
               Cell("cl", 0, "tag"), Cell("cl", 0, "tag"), Cell("cl", 0, "tag")>>
+ @@ "m7" :> <<Cell("hdr", 1, "tag"), Cell("st", 1, "tag"),
+              Cell("st", 2, "tag"), BigCell("st", 2, "text", 4), BigCell("st", 2, "text", 59), BigCell("st", 2, "text", 1),
+              BigCell("st", 2, "text", 1), BigCell("st", 2, "text", 5), Cell("st", 2, "tag"),
+              Cell("st", 3, "tag"), Cell("cl", 0, "tag")>>
+ @@ "m8" :> <<Cell("hdr", 1, "tag"),
+              Cell("st", 1, "tag"), BigCell("st", 1, "attr", 64), BigCell("st", 1, "attr", 64), Cell("st", 1, "mb1"), Cell("st", 1, "mb2"),
+              BigCell("st", 1, "attr", 172), Cell("st", 1, "tag"),
+              Cell("st", 2, "tag"), Cell("cl", 0, "tag")>>
+ @@ "m9" :> <<Cell("hdr", 1, "tag"),
+              Cell("st", 1, "tag"), BigCell("st", 1, "child", 16), BigCell("st", 1, "child", 48), BigCell("st", 1, "child", 1),
+              BigCell("st", 1, "child", 1061), Cell("st", 1, "tag"),
+              Cell("ws", 0, "ws"), Cell("st", 2, "tag"), Cell("cl", 0, "tag"), Cell("cl", 0, "tag")>>
 
 (* ----------------------------------------------------------------------- *)
 (* geometry of a stream description                                         *)
@@ -145,6 +171,9 @@ IndexOK(s) ==
                                      THEN CHOOSE j \in 1..NElems(s) : s.elems[j].to = p ELSE 0)
     /\ \A p \in 1..s.n : s.held[p] = (IF CutChars(s, p) = {} THEN 0
                                       ELSE LET c == CHOOSE c \in CutChars(s, p) : TRUE IN p - (s.chars[c].from - 1))
+
+\* weight (KiB) of the atoms lo+1..hi
+Weight(s, lo, hi) == s.cw[hi] - (IF lo = 0 THEN 0 ELSE s.cw[lo])
 
 \* header in force for element j according to the stream itself
 TrueHdr(s, j) ==
@@ -211,14 +240,18 @@ Read(s, k) ==
            hi == np - c
            g  == IF Decoder = "stateful" THEN garbled ELSE garbled \cup CutChars(s, np)
        IN /\ pos' = np /\ carry' = c /\ garbled' = g
-          /\ IF Boundary(s, hi) /\ hi > buf.lo
+          /\ IF Boundary(s, hi) /\ Boundary(s, buf.lo) /\ hi > buf.lo
              THEN LET js == Batch(s, buf.lo, hi)
                       hs == Hdrs(s, js)
                       ev == NonWs(s, js)
                   IN /\ delivered' = delivered \o [i \in 1..Len(ev) |-> Event(s, ev[i], MechHdr(s, js, hs, ev[i]), g)]
                      /\ hdr' = MechHdr(s, js, hs, s.n + 1)
                      /\ buf' = [lo |-> hi, hi |-> hi]
-             ELSE /\ buf' = [lo |-> buf.lo, hi |-> hi]
+             ELSE \* keep buffering -- whatever the size of the remainder.  (Limit > 0: the wrong
+                  \* variant that gives up on a remainder heavier than Limit; what is left of the
+                  \* element after that never parses.)
+                  /\ buf' = IF Limit > 0 /\ hi > buf.lo /\ Weight(s, buf.lo, hi) > Limit
+                             THEN [lo |-> hi, hi |-> hi] ELSE [lo |-> buf.lo, hi |-> hi]
                   /\ UNCHANGED <<delivered, hdr>>
     /\ hist' = Append(hist, [a |-> "Read", n |-> k])
     /\ UNCHANGED sid
@@ -242,7 +275,7 @@ AppendOnly == [][P_Grow(delivered, delivered')]_vars
 
 TypeOK ==
     /\ pos \in 0..Stream.n /\ carry \in 0..3 /\ buf.lo <= buf.hi /\ buf.hi = pos - carry
-    /\ Boundary(Stream, buf.lo)
+    /\ (Limit = 0 => Boundary(Stream, buf.lo))
     /\ (Decoder = "stateful" => garbled = {})
 
 \* sanity of the shapes themselves
